@@ -34,6 +34,22 @@ def run_property(pid, tier, repo, replay_key=None, write_evidence=True,
   res.explanation = mod.EXPLANATION
   res.assumptions = list(getattr(mod, 'ASSUMPTIONS', []))
   mod.run(prog, res)
+  if tier == 'thorough' and replay_key is None:
+    # sensitivity audit: informational, never changes the verdict
+    try:
+      from tflsa import selftest
+      misses = selftest.audit(pid, repo)
+      st = dict(getattr(selftest.audit, 'last_stats', {}))
+      res.extra['audit'] = {
+          'mutants_applied': st.get('applied', 0),
+          'mutants_detected': st.get('detected', 0),
+          'neutral_variants': st.get('neutral', 0),
+          'neutral_variants_silent': st.get('neutral_silent', 0),
+          'audit_misses': misses,
+          'note': 'scratch copies under $TMPDIR, one textual edit each, '
+                  'removed immediately; informational only'}
+    except model.AnalysisError as e:
+      print('AUDIT-SKIPPED %s' % e)
   return res.finish(replay_key=replay_key, write_evidence=write_evidence,
                     quiet=quiet)
 
@@ -62,13 +78,6 @@ def main(argv=None):
     pid = args.property[0]
     rc = run_property(pid, args.tier, args.repo,
                       write_evidence=not args.no_evidence)
-    if args.tier == 'thorough' and rc == 0:
-      # sensitivity audit: informational, never changes the verdict
-      try:
-        from tflsa import selftest
-        selftest.audit(pid, args.repo)
-      except model.AnalysisError as e:
-        print('AUDIT-SKIPPED %s' % e)
     return rc
   except model.AnalysisError as e:
     print('ANALYSIS-ERROR %s' % e)
